@@ -95,7 +95,8 @@ def run_gen_phase(ctx: Ctx, phase: dict):
         if len(ctx.samples) < 2 and count[0] % 97 == 1:
             ctx.samples.append(dict(profile=phase["profile"], src=b["srcnames"],
                                     moves=[s["m"] for s in b["steps"]],
-                                    predicted=[s.get("err") or dict(names=s["o"]["names"], rows=s["o"]["rows"][:3]) for s in b["steps"]]))
+                                    predicted=[s.get("err") or s.get("val") or dict(names=s["o"]["names"], rows=s["o"]["rows"][:3])
+                                               for s in b["steps"]]))
         buf.append(b)
         if len(buf) >= FLUSH_AT:
             flush(ctx, buf, d, backends, opts)
@@ -107,7 +108,7 @@ def run_gen_phase(ctx: Ctx, phase: dict):
     res = tlc.run(d, **kw)
     flush(ctx, buf, d, backends, opts, final=True)
     if res["violations"]:
-        raise tlc.TlcError("model-level property violated in profile %s:\n%s" % (phase["profile"], "\n".join(res["log"][-40:])))
+        raise tlc.TlcError("model-level property violated in profile %s:\n%s" % (phase["profile"], "\n".join(res.get("errctx", []) + res["log"][-40:])))
     if res["timed_out"]:
         ctx.exhaustive = False
         ctx.notes.append(f"TLC phase {phase['profile']} stopped at its time budget")
